@@ -1692,6 +1692,10 @@ class Context:
                 if is_superrun:
                     # In case the checking about allow_superrun shows error
                     p.allow_superrun = True
+                # Register the temporary plugin in a private copy of this context: the plugin
+                # registry of self may be in use by other threads (e.g. the workers of multi_run)
+                # noinspection PyMethodFirstArgAssignment
+                self = self.new_context()
                 self.register(p)
                 targets = (temp_name,)
             elif not allow_multiple or processor is strax.SingleThreadProcessor:
